@@ -266,14 +266,14 @@ Fixpoint take_while {X} (p : X -> bool) (l : list X) : list X :=
 
 Definition zoom_sizes_two_pass (o : opts) (sum : summary) (counts : list (N * N)) (data_size : N) : list N :=
   match o_manual o with
-  | Some zs => sort_dedup (filter (fun z => negb (z =? 0)) zs)
+  | Some zs => firstn (N.to_nat MAX_ZOOM_LEVELS) (sort_dedup (filter (fun z => negb (z =? 0)) zs))
   | None =>
       let min_first := N.max (average_size sum) 10 * 4 in
       let l1 := skip_while (fun z => min_first <? fst z) counts in
       let l2 := skip_while (fun z => let red := snd z * 32 in
                                      let red := if o_compress o then red / 2 else red in
                                      data_size / 2 <? red) l1 in
-      map fst (take_while (fun z => fst z <=? 2 ^ 32 - 1) (firstn (N.to_nat (o_maxzooms o)) l2))
+      map fst (take_while (fun z => fst z <=? 2 ^ 32 - 1) (firstn (N.to_nat (N.min (o_maxzooms o) MAX_ZOOM_LEVELS)) l2))
   end.
 
 (* write_zoom_vals: every selected level is written (no skipping), data then index *)
